@@ -30,6 +30,12 @@ struct SdoEnv {
         size_t off = 0; for (auto &s : w.s[0].specs) { size_t n = w.bytes(0, s.idx, s.sub).size(); range.push_back({off, n}); off += n; }
         if (CONodeGetErr(w.N(0)) != CO_ERR_NONE) fail("setup/node-error", "node reports an error after initialisation");
     }
+    // the application's main loop after a request was served: a node shut down through 2501h is started again, an SDO channel locked through 2502h is reopened ('appcmd' plans)
+    void appMainLoop() {
+        if (!plan.c("appcmd", 0) || !w.N(0)) return; w.cur = 0; CO_NODE *n = w.N(0);
+        if (CONmtGetMode(&n->Nmt) == CO_STOP) { CONmtSetMode(&n->Nmt, plan.c("oper", 0) ? CO_OPERATIONAL : CO_PREOP); cov.hit("node-shut-down-by-an-object-write-and-started-again"); nontrivial = true; }
+        uint32_t id = w.raw(0, 0x1200, 1); if (id & 0x80000000u) { (void)CODictWrLong(&n->Dict, CO_DEV(0x1200, 1), ((id & 0x7FFu) + nodeId)); (void)CONodeGetErr(n); cov.hit("sdo-channel-locked-by-an-object-write-and-reopened"); nontrivial = true; }
+    }
     std::pair<size_t, size_t> objRange(uint16_t idx, uint8_t sub) { for (size_t i = 0; i < w.s[0].specs.size(); i++) if (w.s[0].specs[i].idx == idx && w.s[0].specs[i].sub == sub) return range[i]; return {0, 0}; }
     // deliver 'copies' of req to server srv, one CONodeProcess each; returns frames the node emitted on that server's TxId
     // 'firstFail' (optional): frames the driver refused are then part of the result (the server built them) and *firstFail is the index of the first refused one (-1 none)
@@ -45,6 +51,7 @@ struct SdoEnv {
         if (w.s[0].txInOp > 127 + CO_TPDO_N + 2) fail("tx-bound", "more than the bounded number of frames in one processing step");
         if (w.fatal) fail("fatal", "fatal error callback");
         if (count) *count = out.size();
+        appMainLoop();
         return out;
     }
 };
@@ -153,6 +160,7 @@ struct XferRun : SdoEnv {
         f.id = rxid(srv); size_t m = w.mark(); w.rx(0, f); w.canproc(0); cov.frames_in++;
         for (size_t i = m; i < w.evs.size(); i++) { const Ev &e = w.evs[i]; if (e.kind == EV_TX) { cov.frames_out++; if (e.f.id != txid(srv)) fail("foreign-tx", "frame on another COB-ID while serving an SDO request: " + e.f.str()); } else if (e.kind == EV_CANRECEIVE) fail("sdo-to-app", "SDO request handed to the application callback"); }
         if (w.s[0].txInOp > 127 + CO_TPDO_N + 2) fail("tx-bound", "more than the bounded number of frames in one processing step");
+        appMainLoop();
         for (int k = 0; k < 2; k++) if (L[k].active && L[k].s.srv == srv) L[k].active = false;   // whatever was open on this server is no longer tracked
         recovered[srv] = (f.d[0] == 0x80);      // only a client abort leaves the server idle by construction
         // reach: abstract server state through the public structure (coverage only, never an oracle)
@@ -173,8 +181,8 @@ struct XferRun : SdoEnv {
     bool metaOf(uint16_t idx, uint8_t sub, SdoObj &m) {
         const ObjSpec *o = w.ospec(0, idx, sub); if (!o) return false;
         m.idx = idx; m.sub = sub; m.rd = (o->flags & CO_OBJ_____R_) != 0; m.wr = (o->flags & CO_OBJ______W) != 0; m.nodeid = (o->flags & CO_OBJ__N____) != 0;
-        m.kind = o->type == T_DOMAIN ? 1 : o->type == T_STRING ? 2 : o->type == T_USER ? ((o->val >> 24) ? 3 : 5) : (o->type == T_U8 || o->type == T_U16 || o->type == T_U32) ? 0 : 4;
-        m.size = o->type == T_DOMAIN || o->type == T_STRING ? (uint32_t)o->bytes.size() : o->type == T_USER ? 4 : (uint32_t)ot_width(o->type, sub);
+        m.kind = o->type == T_DOMAIN ? 1 : o->type == T_STRING ? 2 : o->type == T_USER ? ((o->val >> 24) ? 3 : 5) : (o->type == T_U8 || o->type == T_U16 || o->type == T_U32 || o->type == T_APP) ? 0 : 4;
+        m.size = o->type == T_DOMAIN || o->type == T_STRING ? (uint32_t)o->bytes.size() : (o->type == T_USER || o->type == T_APP) ? 4 : (uint32_t)ot_width(o->type, sub);
         return true;
     }
     bool indexExists(uint16_t idx) { for (auto &sp : w.s[0].specs) if (sp.idx == idx) return true; return false; }
@@ -353,7 +361,7 @@ static void gen_cfg(Rng &r, Plan &p, bool big = false) {
 }
 static Op gen_begin(Rng &r, int k, bool upload, bool thorough) {
     // objects: index into SdoDict::objs (ints 0..13, domains 14..19, strings 20..21, user 22)
-    int64_t obj = r.chance(1, 2) ? r.range(14, 19) : r.chance(1, 3) && upload ? r.range(20, 21) : r.range(0, 25);
+    int64_t obj = r.chance(1, 2) ? r.range(14, 19) : r.chance(1, 3) && upload ? r.range(20, 21) : r.chance(1, 8) ? 26 : r.range(0, 27);
     int64_t mode = r.below(3); int64_t len = r.chance(1, 2) ? 100000 : r.chance(1, 2) ? r.range(1, 30) : r.range(1, 4000);
     Op o("begin", {k, (int64_t)r.below(2), obj, upload ? 1 : 0, mode, (int64_t)r.chance(2, 3), (int64_t)r.below(2), len, (int64_t)r.below(1000), r.pick<int64_t>({127, 127, 1, 2, 3, 7, 64, 126, 100})});
     if (r.chance(1, 2)) {
@@ -394,6 +402,7 @@ static Frame gen_request(Rng &r, const SdoDict &d) {
     f.d[0] = r.chance(3, 4) ? cmds[r.below(sizeof cmds)] : r.byte();
     int k = (int)r.below(12);
     static const uint16_t others[] = {0x1000, 0x1001, 0x1018, 0x1200, 0x1017, 0x1400, 0x2FFF, 0x0000, 0xFFFF, 0x1201};
+    if (r.chance(1, 12)) { uint16_t i = (uint16_t)(0x2500 + r.below(3)); f.d[0] = r.pick<uint8_t>({0x23, 0x23, 0x40, 0x2F, 0x21}); f.d[1] = (uint8_t)i; f.d[2] = (uint8_t)(i >> 8); f.d[3] = i == 0x2500 ? 1 : 0; for (int j = 4; j < 8; j++) f.d[j] = r.byte(); return f; }   // application-defined entries with active type functions
     if (r.chance(1, 8)) { uint16_t i = (uint16_t)(0x2300 + r.below(5)); f.d[0] = r.pick<uint8_t>({0x23, 0x23, 0x23, 0x40, 0x22, 0x21}); f.d[1] = (uint8_t)i; f.d[2] = (uint8_t)(i >> 8); f.d[3] = 0; for (int j = 4; j < 8; j++) f.d[j] = r.byte(); return f; }   // types that refuse the value
     if (k < 7) { const SdoObj &o = d.objs[r.below((uint32_t)d.objs.size())]; f.d[1] = (uint8_t)o.idx; f.d[2] = (uint8_t)(o.idx >> 8); f.d[3] = o.sub; }
     else if (k < 9) { const SdoObj &o = d.objs[r.below((uint32_t)d.objs.size())]; f.d[1] = (uint8_t)o.idx; f.d[2] = (uint8_t)(o.idx >> 8); f.d[3] = (uint8_t)(o.sub + 10 + r.below(200)); }
@@ -406,7 +415,7 @@ static Frame gen_request(Rng &r, const SdoDict &d) {
     return f;
 }
 static Plan gen_req(Rng &r, bool thorough) {
-    Plan p; gen_cfg(r, p); p.cfg["usercode"] = r.range(1, 0xFF); p.cfg["poolfull"] = r.chance(1, 6);
+    Plan p; gen_cfg(r, p); p.cfg["usercode"] = r.range(1, 0xFF); p.cfg["poolfull"] = r.chance(1, 6); p.cfg["appcmd"] = r.chance(1, 3);
     bool hbc = !p.cfg["poolfull"] && r.chance(1, 5); p.cfg["hbcons"] = hbc; if (hbc) for (int k = 1; k <= 3; k++) p.cfg["hbc" + std::to_string(k)] = r.chance(1, 2) ? 0 : (int64_t)((4 + k) << 16 | r.pick<int>({50, 100}));
     SdoDict d; d.build(p, 1);
     int rounds = (int)r.range(1, thorough ? 10 : 6);
@@ -424,7 +433,7 @@ static Plan gen_req(Rng &r, bool thorough) {
 }
 // ---- C05 generator: arbitrary history, then [abort | reset communication], then a clean transfer
 static Plan gen_wedge(Rng &r, bool thorough) {
-    Plan p; gen_cfg(r, p); p.cfg["resetfail"] = 1; bool ps = r.chance(1, 6); p.cfg["parasrv"] = ps;
+    Plan p; gen_cfg(r, p); p.cfg["resetfail"] = 1; bool ps = r.chance(1, 6); p.cfg["parasrv"] = ps; p.cfg["appcmd"] = r.chance(1, 3);
     SdoDict d; d.build(p, 1);
     int64_t srv = ps ? 1 : r.below(2);
     int n = (int)r.range(0, thorough ? 120 : 50);
@@ -442,7 +451,7 @@ static Plan gen_wedge(Rng &r, bool thorough) {
     int t = (int)r.range(1, 3);
     for (int i = 0; i < t; i++) {
         // T: a transfer that must succeed: readable/writable plain objects with a length the server has to accept
-        bool up = r.chance(1, 2); int64_t obj = up ? r.pick<int64_t>({1, 2, 3, 4, 5, 6, 7, 10, 12, 14, 15, 16, 17, 19, 20, 21}) : r.pick<int64_t>({1, 2, 3, 4, 5, 6, 7, 8, 9, 11, 13, 14, 15, 16, 18, 19});
+        bool up = r.chance(1, 2); int64_t obj = up ? r.pick<int64_t>({1, 2, 3, 4, 5, 6, 7, 10, 12, 14, 15, 16, 17, 19, 20, 21, 26}) : r.pick<int64_t>({1, 2, 3, 4, 5, 6, 7, 8, 9, 11, 13, 14, 15, 16, 18, 19, 26});
         Op b("begin", {0, srv, obj, up ? 1 : 0, (int64_t)r.below(3), 1, (int64_t)r.below(2), 100000, (int64_t)r.below(1000), r.pick<int64_t>({127, 1, 7, 64})});
         p.ops.push_back(b); p.ops.push_back(Op("finish", {0}));
     }
